@@ -2,6 +2,7 @@ import Clover.Generated.Facts
 import Clover.Proofs.Window
 import Clover.Proofs.SortOrder
 import Clover.Proofs.SortClasses
+import Clover.Proofs.TotalOrder
 import Clover.Model.QueryBuilder
 /-! # C08 — sort order and skip/limit windows are exact -/
 namespace CV.Props.C08
@@ -156,6 +157,18 @@ theorem findAll_positions (s : Spec.State) (σ : KVS) (hw : WF s) (hr : Rep s σ
         compareDocuments res[i] (Spec.findAll likeFn fnFam q coll)[i] q.sort = 0 := by
   obtain ⟨res, hrun, hf⟩ := findAll_classwise_any_plan likeFn fnFam s σ hw hr q coll hl hdomain hsd hnn
   exact ⟨res, hrun, forall₂_length _ hf, forall₂_getElem _ hf⟩
+
+/-- **… and EXACTLY the specification's list when the sort order is total on the matching documents** (no ties:
+    e.g. `_id` among the sort keys), for every plan, skip and limit. -/
+theorem findAll_exact_when_order_total (s : Spec.State) (σ : KVS) (hw : WF s) (hr : Rep s σ) (q : Query)
+    (coll : Spec.Coll) (hl : Spec.lookup q.coll s = some coll) (hdomain : KeyDomain q coll)
+    (hsd : SortDom q.sort ((coll.docs.map (·.2)).filter (fun d => satOpt likeFn fnFam d q.crit)))
+    (hnn : (choosePlan coll.indexes q).2 = true →
+      ∀ o ∈ q.sort, ∀ d ∈ (coll.docs.map (·.2)).filter (fun d => satOpt likeFn fnFam d q.crit),
+        d.has o.1 = true → d.get o.1 ≠ .null)
+    (htot : TotalSort likeFn fnFam q coll) :
+    (withTx false (Op.body likeFn fnFam (.findAll q)) noFault σ).1 = .ok (.docs (Spec.findAll likeFn fnFam q coll)) :=
+  findAll_exact_total_any_plan likeFn fnFam s σ hw hr q coll hl hdomain hsd hnn htot
 
 /-- **`FindFirst` under any plan** answers nothing exactly when the specification does, and otherwise
     a document tie-equivalent under the sort options to the specification's first document. -/
